@@ -209,6 +209,12 @@ def run_history(seed, sc, ctx, workdir, replay_tapes=None, upto=None):
             c = canon.compare_fronts(refs[name], rr.front)
             if fault_desc is not None and not c:
                 st["disk_fault_detected_or_recomputed"] = st.get("disk_fault_detected_or_recomputed", 0) + 1
+            if c and c[0] == "representative" and cfg["W"] > 1 and _split_only(C, plan[name], cfg, workdir, refs[name]):
+                res["violations"].append(_viol(
+                    "cache_representative", "split_in_half", f"history step {si} map({name}): {c[1]} "
+                    "[disappears when the join's worker-count dependent group splitting is disabled]",
+                    sc, plan, si, tapes))
+                break
             if c:
                 other = "B" if name == "A" else "A"
                 stale = other in refs and canon.compare_fronts(refs[other], rr.front) is None
@@ -229,6 +235,20 @@ def run_history(seed, sc, ctx, workdir, replay_tapes=None, upto=None):
         res["sample"] = {"seed": seed, "mode": "cache", "spec_params": plan["A"],
                          "variant_field": plan["variant_field"], "steps": plan["steps"]}
     return res
+
+
+def _split_only(C, params, cfg, workdir, ref_front):
+    """Known finding by call site: the difference is there without cache_dir too, and goes away
+    when only the join's fan-out splitting is disabled."""
+    from sim import canon, common
+    rr = C.run_mapper(params, cfg, C._mk_tape(cfg, replay=[]), C.body_map, workdir)
+    common.purge_scratch(keep=("cache_dir",))
+    if rr.error is not None or not canon.compare_fronts(ref_front, rr.front):
+        return False
+    with C._NoJoinSplit():
+        rr2 = C.run_mapper(params, cfg, C._mk_tape(cfg, replay=[]), C.body_map, workdir)
+    common.purge_scratch(keep=("cache_dir",))
+    return rr2.error is None and canon.compare_fronts(ref_front, rr2.front) is None
 
 
 def _viol(cls, key, detail, sc, plan, step, tapes):
